@@ -182,7 +182,7 @@ fn worker_body(args: WorkerArgs) {
         let seed = run_seed(args.seed, info.name, i);
         let mut rng = Rng::new(seed);
         let plan = scen.generate(&mut rng, args.tier, i);
-        scen.execute(&plan, &mut ctx);
+        execute_guarded(scen.as_ref(), &plan, &mut ctx);
         unsafe {
             libc::alarm(0);
         }
@@ -243,13 +243,30 @@ fn exec_body(scenario: &str, plan_file: &Path, out: &Path, crumb: Option<PathBuf
     let v: Value = serde_json::from_str(&text).unwrap_or_else(|e| harness_error(&format!("plan json: {}", e)));
     let plan = Plan::from_json(&v).unwrap_or_else(|| harness_error("plan shape"));
     let crumb = crumb.as_ref().and_then(|p| map_crumb(p));
+    // optional prelude: earlier runs of the same worker, executed first in this very process, for violations that
+    // depend on state the library keeps outside the objects under test (statics, thread-locals)
+    if let Some(pre) = v.get("prelude").and_then(|p| p.as_array()) {
+        for pv in pre {
+            if let Some(pp) = Plan::from_json(pv) {
+                let mut pctx = RunCtx::new(&known, false, crumb);
+                pctx.crumb_run(0);
+                unsafe {
+                    libc::alarm(240);
+                }
+                execute_guarded(scen.as_ref(), &pp, &mut pctx);
+                unsafe {
+                    libc::alarm(0);
+                }
+            }
+        }
+    }
     let mut ctx = RunCtx::new(&known, trace, crumb);
     ctx.crumb_run(0);
     let alarm_s: u32 = std::env::var("BSVSIM_ALARM").ok().and_then(|v| v.parse().ok()).unwrap_or(30);
     unsafe {
         libc::alarm(alarm_s);
     }
-    scen.execute(&plan, &mut ctx);
+    execute_guarded(scen.as_ref(), &plan, &mut ctx);
     unsafe {
         libc::alarm(0);
     }
@@ -264,6 +281,22 @@ fn exec_body(scenario: &str, plan_file: &Path, out: &Path, crumb: Option<PathBuf
         "trace": ctx.trace,
     });
     fs::write(out, serde_json::to_string(&res).unwrap()).unwrap_or_else(|e| harness_error(&format!("exec out: {}", e)));
+}
+
+/// A panic that leaves `execute` although every library call is meant to sit inside a guard: when it was raised in the harness's
+/// own sources it is a harness bug (exit 2); raised anywhere else it is the library (or a crate it calls) panicking on a path the
+/// scenario did not expect to panic, and is judged like a guarded panic.
+pub fn execute_guarded(scen: &dyn Scenario, plan: &Plan, ctx: &mut RunCtx) {
+    let r = crate::core::guard(|| scen.execute(plan, ctx));
+    if let Err(p) = r {
+        crate::faults::stdout_heal();
+        let _ = crate::faults::mem_end();
+        if p.site.starts_with("src/") || p.site.starts_with("sim/src/") || p.site == "unknown" {
+            eprintln!("HARNESS-ERROR panic in the harness at {}: {}", p.site, p.msg);
+            std::process::exit(2);
+        }
+        ctx.violate("panic", format!("panic@{}#outside any guard", crate::core::site_file(&p.site)), format!("library panicked at {}: {}", p.site, p.msg));
+    }
 }
 
 // ---------------------------------------------------------------------------------------------
@@ -329,6 +362,9 @@ fn is_resource_outcome(v: &Violation) -> bool {
     !ALLOC_ABORT_IS_VIOLATION.load(std::sync::atomic::Ordering::Relaxed) && v.signature.starts_with("abort:alloc@")
 }
 
+/// may a batch stop as soon as a verdict seems to exist? (switched off for the completion pass)
+pub static ALLOW_EARLY_STOP: std::sync::atomic::AtomicBool = std::sync::atomic::AtomicBool::new(true);
+
 static EXEC_COUNTER: std::sync::atomic::AtomicU64 = std::sync::atomic::AtomicU64::new(0);
 
 /// Execute a plan in a fresh child process.
@@ -339,13 +375,21 @@ pub fn exec_plan(scratch: &Path, scenario: &str, plan: &Plan, known: &BTreeSet<S
 /// `alarm_s`: the hang watchdog of the child. A `timeout` verdict of a loaded batch is re-examined with a much
 /// longer period before it is believed (wall-clock must not decide a verdict on a busy machine).
 pub fn exec_plan_alarm(scratch: &Path, scenario: &str, plan: &Plan, known: &BTreeSet<String>, trace: bool, alarm_s: u32) -> ExecResult {
+    exec_plan_full(scratch, scenario, plan, &[], known, trace, alarm_s)
+}
+
+pub fn exec_plan_full(scratch: &Path, scenario: &str, plan: &Plan, prelude: &[Plan], known: &BTreeSet<String>, trace: bool, alarm_s: u32) -> ExecResult {
     let n = EXEC_COUNTER.fetch_add(1, std::sync::atomic::Ordering::Relaxed);
     let pf = scratch.join(format!("x{}.plan.json", n));
     let of = scratch.join(format!("x{}.out.json", n));
     let ef = scratch.join(format!("x{}.err", n));
     let cf = scratch.join(format!("x{}.crumb", n));
     let kf = scratch.join(format!("x{}.known", n));
-    fs::write(&pf, serde_json::to_string(&plan.to_json()).unwrap()).unwrap();
+    let mut pj = plan.to_json();
+    if !prelude.is_empty() {
+        pj["prelude"] = Value::Array(prelude.iter().map(|p| p.to_json()).collect());
+    }
+    fs::write(&pf, serde_json::to_string(&pj).unwrap()).unwrap();
     fs::write(&kf, serde_json::to_string(&known.iter().collect::<Vec<_>>()).unwrap()).unwrap();
     let _ = fs::remove_file(&of);
     let mut cmd = Command::new(self_exe());
@@ -617,7 +661,7 @@ pub fn run_sharded(scratch: &Path, scenario: &str, seed: u64, tier: Tier, indice
             let _ = sh.pos;
         }
         // a verdict exists: do not burn the rest of the budget (each hang costs a 20 s watchdog period)
-        if !agg.violations.is_empty() {
+        if !agg.violations.is_empty() && ALLOW_EARLY_STOP.load(std::sync::atomic::Ordering::Relaxed) {
             let t = *first_violation.get_or_insert_with(Instant::now);
             // one watchdog hit can be load; three say the library really hangs or dies
             let costly = agg.violations.values().filter(|v| v.class == "timeout" || v.class == "abort").count() >= 3;
@@ -729,7 +773,11 @@ pub fn minimise(scratch: &Path, scen: &dyn Scenario, scenario: &str, plan: &Plan
 // replay files
 
 pub fn write_replay(path: &Path, property: &str, scenario: &str, seed: u64, run: Option<u64>, tier: Tier, plan: &Plan, v: &Violation, note: &str) {
-    let doc = json!({
+    write_replay_full(path, property, scenario, seed, run, tier, plan, &[], v, note)
+}
+
+pub fn write_replay_full(path: &Path, property: &str, scenario: &str, seed: u64, run: Option<u64>, tier: Tier, plan: &Plan, prelude: &[Plan], v: &Violation, note: &str) {
+    let mut doc = json!({
         "property": property,
         "scenario": scenario,
         "seed": seed,
@@ -740,10 +788,21 @@ pub fn write_replay(path: &Path, property: &str, scenario: &str, seed: u64, run:
         "config": plan.config,
         "events": plan.events,
     });
+    if !prelude.is_empty() {
+        doc["prelude"] = Value::Array(prelude.iter().map(|p| p.to_json()).collect());
+    }
     if let Some(d) = path.parent() {
         let _ = fs::create_dir_all(d);
     }
     fs::write(path, serde_json::to_string_pretty(&doc).unwrap()).unwrap_or_else(|e| harness_error(&format!("write replay: {}", e)));
+}
+
+pub fn load_prelude(path: &Path) -> Vec<Plan> {
+    fs::read_to_string(path)
+        .ok()
+        .and_then(|t| serde_json::from_str::<Value>(&t).ok())
+        .and_then(|v| v.get("prelude").and_then(|p| p.as_array()).map(|a| a.iter().filter_map(Plan::from_json).collect()))
+        .unwrap_or_default()
 }
 
 pub fn load_replay(path: &Path) -> (String, String, Plan, Option<Violation>) {
@@ -760,7 +819,8 @@ pub fn replay_main(path: &Path, verbose: bool) -> i32 {
     if let Some(sc) = scenario_by_name(&scenario) {
         ALLOC_ABORT_IS_VIOLATION.store(sc.info().alloc_abort_is_violation, std::sync::atomic::Ordering::Relaxed);
     }
-    let res = exec_plan(&scratch, &scenario, &plan, &BTreeSet::new(), true);
+    let prelude = load_prelude(path);
+    let res = exec_plan_full(&scratch, &scenario, &plan, &prelude, &BTreeSet::new(), true, 60);
     let _ = fs::remove_dir_all(&scratch);
     if verbose {
         for l in &res.trace {
@@ -814,7 +874,7 @@ pub fn orchestrate(a: OrchArgs) -> i32 {
         let still = match &f.replay {
             Some(r) => {
                 let (_, sc, plan, _) = load_replay(&verif_root().join(r));
-                let res = exec_plan(&scratch, &sc, &plan, &BTreeSet::new(), false);
+                let res = exec_plan_full(&scratch, &sc, &plan, &load_prelude(&verif_root().join(r)), &BTreeSet::new(), false, 60);
                 match res.violation {
                     Some(v) if v.signature == f.signature => true,
                     Some(v) => {
@@ -879,41 +939,101 @@ pub fn orchestrate(a: OrchArgs) -> i32 {
     // 4. violations
     let mut exit = 0;
     let mut reported: Vec<(String, String)> = vec![];
+    // completion pass: a batch that stopped early must not be reported as explored unless a violation is confirmed below;
+    // the remaining indices are run now with early stopping switched off when nothing confirms
     // the first violation (lowest run index) that reproduces in a fresh process is the one reported
     let mut confirmed: Option<(u64, Violation, Plan)> = None;
+    let mut confirmed_prelude: Vec<Plan> = vec![];
     let mut dropped_timeouts = 0u64;
-    for (&run, v) in agg.violations.iter() {
-        let plan = plan_for(info.name, a.seed, a.tier, run);
-        let is_timeout = v.class == "timeout";
-        let confirm = exec_plan_alarm(&scratch, info.name, &plan, &known, false, if is_timeout { 240 } else { 60 });
-        match confirm.violation {
-            Some(cv) => {
-                confirmed = Some((run, cv, plan));
-                break;
-            }
-            None if is_timeout => {
-                // slow under load, not a hang: with a 240 s watchdog on an otherwise idle process it finishes
-                dropped_timeouts += 1;
-                println!("note: run {} hit the 30 s watchdog inside the loaded batch but completes in a fresh process; not a violation", run);
-                if dropped_timeouts > 50 {
-                    break;
+    let n_shards = a.workers.max(1).min(indices.len().max(1)) as u64;
+    let confirm_pass = |viols: &BTreeMap<u64, Violation>, confirmed: &mut Option<(u64, Violation, Plan)>, confirmed_prelude: &mut Vec<Plan>, dropped_timeouts: &mut u64| {
+        for (&run, v) in viols.iter() {
+            let plan = plan_for(info.name, a.seed, a.tier, run);
+            let is_timeout = v.class == "timeout";
+            let confirm = exec_plan_alarm(&scratch, info.name, &plan, &known, false, if is_timeout { 240 } else { 60 });
+            match confirm.violation {
+                Some(cv) => {
+                    *confirmed = Some((run, cv, plan));
+                    return;
+                }
+                None if is_timeout => {
+                    // slow under load, not a hang: with a 240 s watchdog on an otherwise idle process it finishes
+                    *dropped_timeouts += 1;
+                    println!("note: run {} hit the 30 s watchdog inside the loaded batch but completes in a fresh process; not a violation", run);
+                }
+                None => {
+                    // not reproducible alone: does it need what earlier runs of the same worker left behind in the process?
+                    let mut pre: Vec<Plan> = vec![];
+                    for k in (1..=12u64).rev() {
+                        if let Some(j) = run.checked_sub(k * n_shards) {
+                            pre.push(plan_for(info.name, a.seed, a.tier, j));
+                        }
+                    }
+                    let with_pre = exec_plan_full(&scratch, info.name, &plan, &pre, &known, false, 240);
+                    match with_pre.violation {
+                        Some(cv) => {
+                            // keep only as much history as is needed
+                            while pre.len() > 1 {
+                                let shorter = pre[1..].to_vec();
+                                match exec_plan_full(&scratch, info.name, &plan, &shorter, &known, false, 240).violation {
+                                    Some(v2) if v2.signature == cv.signature => pre = shorter,
+                                    _ => break,
+                                }
+                            }
+                            println!("note: the violation of run {} only shows after {} earlier run(s) in the same process: the library keeps state outside the objects under test", run, pre.len());
+                            *confirmed_prelude = pre;
+                            *confirmed = Some((run, cv, plan));
+                            return;
+                        }
+                        None => {
+                            let _ = fs::remove_dir_all(&scratch);
+                            harness_error(&format!("violation `{}` of run {} did not reproduce in a fresh process, alone or after the 12 preceding runs of its worker", v.signature, run));
+                        }
+                    }
                 }
             }
-            None => {
-                let _ = fs::remove_dir_all(&scratch);
-                harness_error(&format!("violation `{}` of run {} did not reproduce in a fresh process", v.signature, run));
-            }
+        }
+    };
+    confirm_pass(&agg.violations, &mut confirmed, &mut confirmed_prelude, &mut dropped_timeouts);
+    if confirmed.is_none() && agg.stopped_early {
+        // nothing real was found but the batch was cut short: run what is missing, without early stopping
+        println!("note: the batch stopped early on watchdog hits that did not reproduce; completing the remaining runs");
+        let rest: Vec<u64> = indices.iter().cloned().filter(|i| !agg.digests.contains_key(i)).collect();
+        ALLOW_EARLY_STOP.store(false, std::sync::atomic::Ordering::Relaxed);
+        let more = run_sharded(&scratch, info.name, a.seed, a.tier, &rest, a.workers, &known, "rest");
+        ALLOW_EARLY_STOP.store(true, std::sync::atomic::Ordering::Relaxed);
+        agg.runs += more.runs;
+        agg.deaths += more.deaths;
+        agg.events += more.events;
+        agg.skipped += more.skipped;
+        for (k, v) in more.faults {
+            *agg.faults.entry(k).or_insert(0) += v;
+        }
+        for (k, v) in more.probes {
+            *agg.probes.entry(k).or_insert(0) += v;
+        }
+        for (k, v) in more.known_seen {
+            *agg.known_seen.entry(k).or_insert(0) += v;
+        }
+        agg.states.extend(more.states);
+        agg.fps.extend(more.fps);
+        agg.digests.extend(more.digests);
+        agg.stopped_early = false;
+        let fresh: BTreeMap<u64, Violation> = more.violations;
+        confirm_pass(&fresh, &mut confirmed, &mut confirmed_prelude, &mut dropped_timeouts);
+        for (k, v) in fresh {
+            agg.violations.entry(k).or_insert(v);
         }
     }
     if let Some((run, target, plan)) = confirmed {
-        let (min_plan, tries) = minimise(&scratch, scen.as_ref(), info.name, &plan, &target, &known);
-        let final_res = exec_plan(&scratch, info.name, &min_plan, &known, true);
+        let (min_plan, tries) = if confirmed_prelude.is_empty() { minimise(&scratch, scen.as_ref(), info.name, &plan, &target, &known) } else { (plan.clone(), 0) };
+        let final_res = exec_plan_full(&scratch, info.name, &min_plan, &confirmed_prelude, &known, true, 240);
         let (final_plan, final_v) = match final_res.violation {
             Some(fv) if fv.signature == target.signature => (min_plan, fv),
             _ => (plan.clone(), target.clone()),
         };
         let rp = verif_root().join("replays").join(format!("{}-{:x}-{}.json", property, a.seed, run));
-        write_replay(&rp, property, info.name, a.seed, Some(run), a.tier, &final_plan, &final_v, &format!("minimised from {} to {} events in {} re-executions", plan.events.len(), final_plan.events.len(), tries));
+        write_replay_full(&rp, property, info.name, a.seed, Some(run), a.tier, &final_plan, &confirmed_prelude, &final_v, &format!("minimised from {} to {} events in {} re-executions; prelude runs needed: {}", plan.events.len(), final_plan.events.len(), tries, confirmed_prelude.len()));
         println!("violation: run={} signature={} class={}", run, final_v.signature, final_v.class);
         println!("  detail: {}", final_v.detail);
         println!("  events: {} -> {} (minimised, {} re-executions)", plan.events.len(), final_plan.events.len(), tries);
